@@ -67,6 +67,7 @@ fn judge_file(out: &mut Out, st: &mut St, cfg: &Cfg, kind: &str, wr: Writer, pcm
         }
         Err(e) => {
             let class = if e.contains("residual") && e.contains("outside") { "residual-out-of-range".to_string() }
+                else if e.contains("does not fit") { "sample-out-of-range".to_string() }
                 else if e.contains("not divisible") || e.contains("not larger than predictor order") { "partition-layout".to_string() }
                 else { e.split(':').last().unwrap_or("").trim().split(' ').take(3).collect::<Vec<_>>().join("-") };
             out.viol(&format!("independent-decoder-rejects:{}", class), &format!("independent RFC 9639 decoder rejects the encoder's output: {} ({}; {} ch {} bps, bs {})", e, kind, cfg.ch, cfg.bps, cfg.bs), &input);
@@ -196,6 +197,24 @@ fn main() {
             let mut pcm = vec![1i32; (pre + 1 + post) * ch as usize];
             pcm[pre * ch as usize] = i32::MIN;
             if let Ok(file) = encode_to_vec(Writer::Samples, &cfg, &pcm, &[pcm.len()]) { judge_file(&mut out, &mut st, &cfg, "flat-with-i32-min", Writer::Samples, &pcm, &file); }
+        }
+    }
+    // full-width ramps that wrap around once near a block edge (an overflowing 32-bit counter): a
+    // low-order LPC predictor extrapolates past the 32-bit range exactly where the signal jumps to
+    // the other end; the residual must then be taken from the true prediction, not a wrapped one
+    for lpc in [2u8, 3] {
+        for p in (1..12).chain(246..256) {
+            let n = 256i64;
+            let d = (1i64 << 32) / n + 611;
+            let base = (1i64 << 31) - d * p + d / 3;
+            let pcm: Vec<i32> = (0..n).map(|t| (base + d * t) as i32).collect();
+            let cfg = Cfg { bps: 32, ch: 1, bs: 256, lpc: Some(lpc), ..Cfg::default() };
+            if let Ok(file) = encode_to_vec(Writer::Samples, &cfg, &pcm, &[pcm.len()]) { judge_file(&mut out, &mut st, &cfg, "ramp-wrapping-at-block-edge", Writer::Samples, &pcm, &file); }
+            // the same in the side channel of a 31-bit stereo stream (left - right spans 32 bits)
+            let mut st_pcm = vec![];
+            for x in &pcm { let (l, r) = ((*x as i64 + 1) >> 1, -((*x as i64) >> 1)); st_pcm.push(l as i32); st_pcm.push(r as i32); }
+            let cfg = Cfg { bps: 31, ch: 2, bs: 256, lpc: Some(lpc), ..Cfg::default() };
+            if let Ok(file) = encode_to_vec(Writer::Samples, &cfg, &st_pcm, &[st_pcm.len()]) { judge_file(&mut out, &mut st, &cfg, "ramp-wrapping-at-block-edge-in-side-channel", Writer::Samples, &st_pcm, &file); }
         }
     }
     // regression witnesses (DESIGN section 4)
